@@ -132,6 +132,45 @@ Proof.
 Qed.
 
 (* ------------------------------------------------------------------ block comments *)
+(* trimming facts *)
+Lemma trim_start_len : forall l, (length (trim_start l) <= length l)%nat.
+Proof. intros l. destruct (trim_start_split l) as (w & Hw & _). rewrite Hw at 2. rewrite app_length. lia. Qed.
+
+Lemma trim_start_fix_nonws : forall x xs, trim_start (x :: xs) = x :: xs -> is_ws x = false.
+Proof.
+  intros x xs H. cbn in H. destruct (is_ws x) eqn:E; [|reflexivity].
+  pose proof (trim_start_len xs) as Hl. rewrite H in Hl. cbn in Hl. lia.
+Qed.
+
+Lemma trim_start_nil_all_ws : forall l, trim_start l = [] -> Forall (fun y => is_ws y = true) l.
+Proof.
+  induction l as [|y l IH]; intros H; [constructor|]. cbn in H. destruct (is_ws y) eqn:Ey; [|discriminate].
+  constructor; [exact Ey|now apply IH].
+Qed.
+
+Lemma trim_end_nil : forall u, trim_end u = [] -> Forall (fun y => is_ws y = true) u.
+Proof.
+  intros u H. unfold trim_end in H. rewrite !revl_eq in H.
+  assert (Hrev : trim_start (rev u) = []).
+  { apply (f_equal (@rev char)) in H. rewrite rev_involutive in H. exact H. }
+  apply trim_start_nil_all_ws in Hrev. apply Forall_rev in Hrev. now rewrite rev_involutive in Hrev.
+Qed.
+
+Lemma trim_nil_start_nil : forall l, trim l = [] -> trim_start l = [].
+Proof.
+  intros l H. unfold trim in H. apply trim_end_nil in H.
+  destruct (trim_start l) as [|x xs] eqn:E; [reflexivity|exfalso].
+  pose proof (trim_start_idem l) as Hid. rewrite E in Hid. apply trim_start_fix_nonws in Hid.
+  inversion H as [|? ? Hx _]. congruence.
+Qed.
+
+Lemma trim_nonempty_of_head : forall ws t, Forall (fun x => is_ws x = true) ws -> trim_start t = t -> t <> [] ->
+  trim (ws ++ t) <> [].
+Proof.
+  intros ws t Hws Ht Hne H. apply trim_nil_start_nil in H.
+  rewrite (trim_start_idem_split ws t Hws Ht) in H. congruence.
+Qed.
+
 
 Lemma min_single_ge : forall sy line ps L m,
   (forall p q, In p ps -> find_outside_string line p (has_rawstring sy) = Some q -> L <= q) ->
@@ -291,23 +330,8 @@ Proof.
   pose proof (find_ml_start_at_head sy ws t pre c post (ml_end c) Hwf Hws Ht Hmul Hpre Hc) as Hf.
   unfold classify_line. rewrite (directive_none sy st _ Hd). rewrite Hb, Hr, Hm. cbn [N.ltb N.compare].
   destruct (trim (ws ++ t)) eqn:Et.
-  - (* the trimmed line is not empty: it starts with the opener *)
-    exfalso. unfold trim in Et. rewrite (trim_start_idem_split ws t Hws Ht) in Et.
-    destruct (trim_end_prefix t) as (w & Hw). rewrite Et in Hw. cbn in Hw.
-    (* t = w, all of t would be trailing whitespace, but t starts with the (non-whitespace) opener *)
-    destruct t as [|t0 tt]; [destruct (ml_start c); [congruence|discriminate]|].
-    unfold trim_end in Et. rewrite !revl_eq in Et.
-    assert (Hrev : trim_start (rev (t0 :: tt)) = []) by (apply (f_equal (@rev char)) in Et; rewrite rev_involutive in Et; exact Et).
-    (* trim_start of rev t is empty means every char of t is whitespace *)
-    assert (Hall : forall l, trim_start l = [] -> Forall (fun x => is_ws x = true) l).
-    { induction l as [|x l IHl]; intros Hl; [constructor|]. cbn in Hl. destruct (is_ws x) eqn:Ex; [|discriminate].
-      constructor; [exact Ex|now apply IHl]. }
-    apply Hall in Hrev. apply Forall_rev in Hrev. rewrite rev_involutive in Hrev.
-    inversion Hrev as [|? ? Hx _]; subst. cbn in Ht. rewrite Hx in Ht.
-    (* trim_start (t0 :: tt) = t0 :: tt is impossible when t0 is whitespace *)
-    destruct (trim_start_split tt) as (w' & Hw' & _).
-    assert (length (trim_start tt) <= length tt)%nat by (rewrite Hw' at 2; rewrite app_length; lia).
-    rewrite Ht in H. cbn in H. lia.
+  - exfalso. apply (trim_nonempty_of_head ws t Hws Ht); [|exact Et].
+    intros ->. destruct (ml_start c); [congruence|discriminate].
   - rewrite Hf. unfold start_update. rewrite Hnest.
     rewrite (no_occurrence_no_end _ _ Hno). reflexivity.
 Qed.
@@ -355,19 +379,8 @@ Proof.
   pose proof (find_ml_start_at_head sy ws t pre c post (ml_end c) Hwf Hws Ht Hmul Hpre Hc) as Hf.
   unfold classify_line. rewrite (directive_none sy st _ Hd). rewrite Hb, Hr, Hm. cbn [N.ltb N.compare].
   destruct (trim (ws ++ t)) eqn:Et.
-  - (* cannot be blank: contains a non-whitespace opener; reuse: quote_free is irrelevant; derive from find *)
-    exfalso. unfold trim in Et. rewrite (trim_start_idem_split ws t Hws Ht) in Et.
-    destruct t as [|t0 tt]; [destruct (ml_start c); [congruence|discriminate]|].
-    unfold trim_end in Et. rewrite !revl_eq in Et.
-    assert (Hrev : trim_start (rev (t0 :: tt)) = []) by (apply (f_equal (@rev char)) in Et; rewrite rev_involutive in Et; exact Et).
-    assert (Hall : forall l, trim_start l = [] -> Forall (fun x => is_ws x = true) l).
-    { induction l as [|x l IHl]; intros Hl; [constructor|]. cbn in Hl. destruct (is_ws x) eqn:Ex; [|discriminate].
-      constructor; [exact Ex|now apply IHl]. }
-    apply Hall in Hrev. apply Forall_rev in Hrev. rewrite rev_involutive in Hrev.
-    inversion Hrev as [|? ? Hx _]; subst. cbn in Ht. rewrite Hx in Ht.
-    destruct (trim_start_split tt) as (w' & Hw' & _).
-    assert (length (trim_start tt) <= length tt)%nat by (rewrite Hw' at 2; rewrite app_length; lia).
-    rewrite Ht in H. cbn in H. lia.
+  - exfalso. apply (trim_nonempty_of_head ws t Hws Ht); [|exact Et].
+    intros E0. rewrite E0 in Hp. destruct (ml_start c); [congruence|discriminate].
   - rewrite Hf. unfold start_update. rewrite Hnest.
     assert (Hend : contains_ml_end (ws ++ t) (ml_end c) = true).
     { rewrite Heq.
@@ -376,3 +389,329 @@ Proof.
       apply quote_free_end_found; assumption. }
     rewrite Hend. rewrite <- Hm. destruct st; cbn in *; subst. reflexivity.
 Qed.
+
+Lemma state_after_app_local : forall sy ls1 ls2 st,
+  state_after sy (ls1 ++ ls2) st = state_after sy ls2 (state_after sy ls1 st).
+Proof. intros sy ls1; induction ls1 as [|l tl IH]; intros ls2 st; cbn; [reflexivity|apply IH]. Qed.
+
+(* ------------------------------------------------------------------ ignore directives *)
+
+Definition ign_next_line (sy : syntax) (l : str) (n : N) : Prop :=
+  is_single_line_comment sy (trim l) = true /\ has_ignore_end sy (trim l) = false /\
+  has_ignore_start sy (trim l) = false /\ parse_ignore_next sy (trim l) = Some n.
+Definition ign_start_line (sy : syntax) (l : str) : Prop :=
+  is_single_line_comment sy (trim l) = true /\ has_ignore_end sy (trim l) = false /\
+  has_ignore_start sy (trim l) = true.
+Definition ign_end_line (sy : syntax) (l : str) : Prop :=
+  is_single_line_comment sy (trim l) = true /\ has_ignore_end sy (trim l) = true.
+
+Lemma ignore_next_line : forall sy st l n, ign_next_line sy l n ->
+  classify_line sy st l = (Comment, {| ml := ml st; ign_rem := n; ign_blk := ign_blk st |}).
+Proof. intros sy st l n (H1 & H2 & H3 & H4). unfold classify_line. now rewrite H1, H2, H3, H4. Qed.
+
+Lemma ignore_start_line : forall sy st l, ign_start_line sy l ->
+  classify_line sy st l = (Comment, {| ml := ml st; ign_rem := ign_rem st; ign_blk := true |}).
+Proof. intros sy st l (H1 & H2 & H3). unfold classify_line. now rewrite H1, H2, H3. Qed.
+
+Lemma ignore_end_line : forall sy st l, ign_end_line sy l ->
+  classify_line sy st l = (Comment, {| ml := ml st; ign_rem := ign_rem st; ign_blk := false |}).
+Proof. intros sy st l (H1 & H2). unfold classify_line. now rewrite H1, H2. Qed.
+
+Definition track_all (sy : syntax) (ls : list str) (m : mls) : mls := fold_left (fun m l => track sy l m) ls m.
+Definition plain_lines (sy : syntax) (ls : list str) : Prop :=
+  Forall (fun l => is_directive sy (trim l) = false) ls.
+
+(* the next n lines are removed: exactly n, whatever they contain (short of another directive) *)
+Lemma ignored_next_run : forall sy ls m k,
+  plain_lines sy ls ->
+  classes sy ls {| ml := m; ign_rem := N.of_nat (length ls) + k; ign_blk := false |} = repeat Ignored (length ls)
+  /\ state_after sy ls {| ml := m; ign_rem := N.of_nat (length ls) + k; ign_blk := false |}
+     = {| ml := track_all sy ls m; ign_rem := k; ign_blk := false |}.
+Proof.
+  intros sy ls; induction ls as [|l ls IH]; intros m k Hp.
+  - cbn. split; [reflexivity|]. f_equal.
+  - inversion Hp as [|? ? Hd Hp']; subst.
+    cbn [classes state_after length repeat track_all fold_left].
+    set (st := {| ml := m; ign_rem := N.of_nat (S (length ls)) + k; ign_blk := false |}).
+    assert (Hc : classify_line sy st l =
+                 (Ignored, {| ml := track sy l m; ign_rem := N.of_nat (length ls) + k; ign_blk := false |})).
+    { unfold classify_line. rewrite (directive_none sy st _ Hd). cbn [st ign_blk ign_rem ml].
+      assert (0 <? N.of_nat (S (length ls)) + k = true) as -> by (apply N.ltb_lt; lia).
+      f_equal. f_equal. lia. }
+    rewrite Hc. cbn [snd]. destruct (IH (track sy l m) k Hp') as [E1 E2].
+    rewrite E1, E2. split; reflexivity.
+Qed.
+
+Lemma ignored_block_run : forall sy ls m r,
+  plain_lines sy ls ->
+  classes sy ls {| ml := m; ign_rem := r; ign_blk := true |} = repeat Ignored (length ls)
+  /\ state_after sy ls {| ml := m; ign_rem := r; ign_blk := true |}
+     = {| ml := track_all sy ls m; ign_rem := r; ign_blk := true |}.
+Proof.
+  intros sy ls; induction ls as [|l ls IH]; intros m r Hp.
+  - cbn. split; reflexivity.
+  - inversion Hp as [|? ? Hd Hp']; subst.
+    cbn [classes state_after length repeat track_all fold_left].
+    set (st := {| ml := m; ign_rem := r; ign_blk := true |}).
+    assert (Hc : classify_line sy st l = (Ignored, {| ml := track sy l m; ign_rem := r; ign_blk := true |})).
+    { unfold classify_line. rewrite (directive_none sy st _ Hd). reflexivity. }
+    rewrite Hc. cbn [snd]. destruct (IH (track sy l m) r Hp') as [E1 E2]. rewrite E1, E2. split; reflexivity.
+Qed.
+
+(* in normal mode the block state evolves exactly as [track] does, so the block state after an
+   ignored region is the one a normal scan of the same lines would reach *)
+Lemma blank_no_opener : forall sy l, wf_syntax sy = true -> trim l = [] -> find_ml_start sy l = None.
+Proof.
+  intros sy l Hwf Ht.
+  destruct (trim_start_split l) as (ws & Hl & Hws).
+  assert (Hts : trim_start l = []) by (now apply trim_nil_start_nil).
+  rewrite Hts, app_nil_r in Hl. subst l.
+  unfold find_ml_start. rewrite best_all_none; [reflexivity|].
+  intros c. intros Hin.
+  assert (Hwm : wf_multi c = true).
+  { unfold wf_syntax in Hwf. apply andb_true_iff in Hwf as [_ H2]. rewrite forallb_forall in H2. now apply H2. }
+  unfold wf_multi in Hwm. unfold cand. rewrite Hts.
+  destruct (ml_start c) as [|a0 at_] eqn:Ea; [discriminate|]. apply negb_true_iff in Hwm.
+  destruct (ml_linestart c); [reflexivity|].
+  destruct (ml_kind c); [| |reflexivity].
+  - unfold find_outside_string. rewrite <- (app_nil_r ws). rewrite fos_ws_prefix; [reflexivity|exact Hwm|exact Hws].
+  - rewrite <- (app_nil_r ws). rewrite flua_ws_prefix by exact Hws. reflexivity.
+Qed.
+
+Lemma classify_ml_track : forall sy st l,
+  wf_syntax sy = true -> ign_rem st = 0 -> ign_blk st = false -> is_directive sy (trim l) = false ->
+  let st' := snd (classify_line sy st l) in
+  ml st' = track sy l (ml st) /\ ign_rem st' = 0 /\ ign_blk st' = false.
+Proof.
+  intros sy st l Hwf Hr Hb Hd. unfold classify_line. rewrite (directive_none sy st _ Hd), Hb, Hr.
+  cbn [N.ltb N.compare]. unfold track.
+  destruct (ml st) as [|d sm em nest] eqn:Em.
+  - destruct (trim l) eqn:Et.
+    + cbn [snd]. rewrite (blank_no_opener sy l Hwf Et). rewrite Em. auto.
+    + destruct (find_ml_start sy l) as [[[c' p] e]|]; cbn [snd ml ign_rem ign_blk]; auto.
+      destruct (is_single_line_comment sy _); cbn [snd]; rewrite Em; auto.
+  - cbn [snd ml ign_rem ign_blk]. auto.
+Qed.
+
+Lemma normal_ml_track : forall sy ls st,
+  wf_syntax sy = true -> ign_rem st = 0 -> ign_blk st = false -> plain_lines sy ls ->
+  let st' := state_after sy ls st in
+  ml st' = track_all sy ls (ml st) /\ ign_rem st' = 0 /\ ign_blk st' = false.
+Proof.
+  intros sy ls; induction ls as [|l ls IH]; intros st Hwf Hr Hb Hp; cbn [state_after track_all fold_left].
+  - auto.
+  - inversion Hp as [|? ? Hd Hp']; subst.
+    destruct (classify_ml_track sy st l Hwf Hr Hb Hd) as (E1 & E2 & E3).
+    destruct (IH (snd (classify_line sy st l)) Hwf E2 E3 Hp') as (F1 & F2 & F3).
+    rewrite E1 in F1. auto.
+Qed.
+
+(* ignore-next N: the directive is a comment, exactly the next N lines are ignored, and the scan
+   then continues in the state a normal scan of those N lines would have reached *)
+Theorem ignore_next_exact : forall sy st dl body rest,
+  wf_syntax sy = true -> idle st ->
+  ign_next_line sy dl (N.of_nat (length body)) -> plain_lines sy body ->
+  idle (state_after sy body st) ->
+  classes sy (dl :: body ++ rest) st = Comment :: repeat Ignored (length body) ++ classes sy rest st0
+  /\ state_after sy (dl :: body) st = st0.
+Proof.
+  intros sy st dl body rest Hwf (Hm & Hr & Hb) Hdl Hp Hidle.
+  cbn [classes state_after]. rewrite (ignore_next_line sy st dl _ Hdl). cbn [snd]. rewrite Hb, Hm.
+  destruct (ignored_next_run sy body NotIn 0 Hp) as [E1 E2]. rewrite N.add_0_r in E1, E2.
+  rewrite classes_app, E1, E2.
+  destruct (normal_ml_track sy body st Hwf Hr Hb Hp) as (F1 & _ & _).
+  destruct Hidle as (G1 & _ & _). rewrite G1, Hm in F1. rewrite <- F1.
+  split; reflexivity.
+Qed.
+
+Theorem ignore_block_exact : forall sy st ds body de rest,
+  wf_syntax sy = true -> idle st ->
+  ign_start_line sy ds -> plain_lines sy body -> ign_end_line sy de ->
+  idle (state_after sy body st) ->
+  classes sy (ds :: body ++ de :: rest) st =
+    Comment :: repeat Ignored (length body) ++ Comment :: classes sy rest st0
+  /\ state_after sy (ds :: body ++ [de]) st = st0.
+Proof.
+  intros sy st ds body de rest Hwf (Hm & Hr & Hb) Hds Hp Hde Hidle.
+  cbn [classes state_after]. rewrite (ignore_start_line sy st ds Hds). cbn [snd]. rewrite Hr, Hm.
+  destruct (ignored_block_run sy body NotIn 0 Hp) as [E1 E2].
+  destruct (normal_ml_track sy body st Hwf Hr Hb Hp) as (F1 & _ & _).
+  destruct Hidle as (G1 & _ & _). rewrite G1, Hm in F1.
+  rewrite classes_app, E1, E2. cbn [classes].
+  rewrite (ignore_end_line sy _ de Hde). cbn [snd ml ign_rem]. rewrite <- F1.
+  split; [reflexivity|].
+  rewrite state_after_app_local. cbn [state_after]. rewrite E2.
+  rewrite (ignore_end_line sy _ de Hde). cbn [snd ml ign_rem]. now rewrite <- F1.
+Qed.
+
+(* ------------------------------------------------------------------ whole programs *)
+
+Definition block_head_ok (sy : syntax) (ws : str) (c : mlc) (t : str) : Prop :=
+  Forall (fun x => is_ws x = true) ws /\ trim_start t = t /\
+  (exists pre post, multi sy = pre ++ c :: post /\ forall c', In c' pre -> opener_at_c t c' = false) /\
+  ml_nest c = false /\ ml_start c <> [] /\ ml_end c <> [] /\
+  (ml_linestart c = true \/ ml_kind c = Static) /\
+  raw_head_here (has_rawstring sy) t = false /\
+  needle_is_multiquote (ml_start c) = false /\
+  is_directive sy (trim (ws ++ t)) = false.
+
+Definition valid_simple (sy : syntax) (p : simple) : Prop :=
+  match p with
+  | PBlank l => trim l = []
+  | PLineComment l => pure_line_comment sy l
+  | PCode ind ss =>
+      forallb (no_opener_c sy ind ss []) (multi sy) = true /\
+      is_single_line_comment sy (trim (ind ++ render_segs ss)) = false /\
+      trim (ind ++ render_segs ss) <> []
+  | PCodeComment ind ss p text =>
+      In p (single sy) /\
+      forallb (no_opener_before_c sy ind ss (p ++ text)) (multi sy) = true /\
+      needle_is_multiquote p = false /\ p <> [] /\
+      segs_ok p (has_rawstring sy) (Plain ind :: ss) (p ++ text) = true /\
+      raw_head_here (has_rawstring sy) (p ++ text) = false /\
+      is_single_line_comment sy (trim (ind ++ render_segs ss ++ p ++ text)) = false /\
+      trim (ind ++ render_segs ss ++ p ++ text) <> []
+  | PBlock1 ws c text tail =>
+      block_head_ok sy ws c (ml_start c ++ text ++ ml_end c ++ tail) /\
+      (* known class K02_quote_in_block: no quote character before the closer *)
+      quote_free (ws ++ ml_start c ++ text) = true
+  | PBlockN ws c text0 mids textN tail =>
+      block_head_ok sy ws c (ml_start c ++ text0) /\
+      (* known class K02_closer_overlaps_opener: the closer does not occur on the opener line *)
+      contains (ml_end c) (ws ++ ml_start c ++ text0) = false /\
+      Forall (fun l => is_directive sy (trim l) = false /\ contains (ml_end c) l = false) mids /\
+      is_directive sy (trim (textN ++ ml_end c ++ tail)) = false /\
+      (* known class K02_quote_in_block *)
+      quote_free textN = true
+  end.
+
+Lemma is_directive_not_comment : forall sy t, is_single_line_comment sy t = false -> is_directive sy t = false.
+Proof.
+  intros sy t H. unfold is_directive, has_ignore_end, has_ignore_start, parse_ignore_next. rewrite H.
+  rewrite !andb_false_r. cbn [orb]. destruct (negb (contains D_NEXT t)); reflexivity.
+Qed.
+
+Lemma is_directive_nil : forall sy, is_directive sy [] = false.
+Proof.
+  intros sy. unfold is_directive, has_ignore_end, has_ignore_start, parse_ignore_next. cbn. reflexivity.
+Qed.
+
+Lemma inner_lines : forall sy c em mids,
+  Forall (fun l => is_directive sy (trim l) = false /\ contains em l = false) mids ->
+  classes sy mids (in_block c em) = repeat Comment (length mids) /\
+  state_after sy mids (in_block c em) = in_block c em.
+Proof.
+  intros sy c em mids; induction mids as [|l mids IH]; intros H; [split; reflexivity|].
+  inversion H as [|? ? [Hd Hn] H']; subst. cbn [classes state_after length repeat].
+  rewrite (block_inner_line sy c em l Hd Hn). cbn [snd]. destruct (IH H') as [E1 E2]. rewrite E1, E2.
+  split; reflexivity.
+Qed.
+
+Theorem simple_ok : forall sy st p, wf_syntax sy = true -> idle st -> valid_simple sy p ->
+  classes sy (render_simple p) st = truth_simple p /\
+  idle (state_after sy (render_simple p) st) /\
+  plain_lines sy (render_simple p).
+Proof.
+  intros sy st p Hwf Hi Hv. destruct p as [l|l|ind ss|ind ss p text|ws c text tail|ws c text0 mids textN tail];
+    cbn [render_simple truth_simple valid_simple] in *.
+  - cbn [classes state_after]. rewrite (blank_neutral sy st l Hi Hv). cbn [snd].
+    repeat split; try apply Hi. constructor; [|constructor]. rewrite Hv. apply is_directive_nil.
+  - cbn [classes state_after]. rewrite (line_comment_neutral sy st l Hwf Hi Hv). cbn [snd].
+    repeat split; try apply Hi. constructor; [|constructor]. apply Hv.
+  - destruct Hv as (H1 & H2 & H3). cbn [classes state_after].
+    rewrite (code_line sy st ind ss Hi H1 H2 H3). cbn [snd].
+    repeat split; try apply Hi. constructor; [|constructor]. now apply is_directive_not_comment.
+  - destruct Hv as (H1 & H2 & H3 & H4 & H5 & H6 & H7 & H8). cbn [classes state_after].
+    rewrite (code_then_comment_line sy st ind ss p text Hi H1 H2 H3 H4 H5 H6 H7 H8). cbn [snd].
+    repeat split; try apply Hi. constructor; [|constructor]. now apply is_directive_not_comment.
+  - destruct Hv as ((Hws & Ht & (pre & post & Hm & Hpre) & Hn & Hne & Hne2 & Hk & Hraw & Hmq & Hd) & Hq).
+    cbn [classes state_after].
+    rewrite (block_single_line sy st ws _ pre c post text tail Hwf Hi Hws Ht eq_refl Hm Hpre Hn Hne Hne2 Hk Hraw Hmq Hd Hq).
+    cbn [snd]. repeat split; try apply Hi. constructor; [|constructor]. exact Hd.
+  - destruct Hv as ((Hws & Ht & (pre & post & Hm & Hpre) & Hn & Hne & Hne2 & Hk & Hraw & Hmq & Hd) & Hno & Hmids & HdN & Hq).
+    assert (Hp : prefixb (ml_start c) (ml_start c ++ text0) = true) by apply prefixb_self_app.
+    cbn [classes state_after].
+    rewrite (block_open_line sy st ws _ pre c post Hwf Hi Hws Ht Hm Hpre Hn Hne Hk Hp Hraw Hmq Hd Hno).
+    cbn [snd]. rewrite classes_app, state_after_app_local.
+    destruct (inner_lines sy c (ml_end c) mids Hmids) as [E1 E2]. rewrite E1, E2.
+    cbn [classes state_after]. rewrite (block_close_line sy c (ml_end c) textN tail Hne2 Hq HdN). cbn [snd].
+    repeat split; try reflexivity.
+    constructor; [exact Hd|]. apply Forall_app. split.
+    + eapply Forall_impl; [|exact Hmids]. intros a [Ha _]. exact Ha.
+    + constructor; [exact HdN|constructor].
+Qed.
+
+Definition valid_simples (sy : syntax) (ps : list simple) : Prop := Forall (valid_simple sy) ps.
+
+Theorem simples_ok : forall sy ps st, wf_syntax sy = true -> idle st -> valid_simples sy ps ->
+  classes sy (render_simples ps) st = truth_simples ps /\
+  idle (state_after sy (render_simples ps) st) /\
+  plain_lines sy (render_simples ps).
+Proof.
+  intros sy ps; induction ps as [|p ps IH]; intros st Hwf Hi Hv.
+  - cbn. repeat split; try apply Hi. constructor.
+  - inversion Hv as [|? ? Hp Hps]; subst.
+    cbn [render_simples truth_simples flat_map]. fold (render_simples ps). fold (truth_simples ps).
+    destruct (simple_ok sy st p Hwf Hi Hp) as (E1 & E2 & E3).
+    destruct (IH _ Hwf E2 Hps) as (F1 & F2 & F3).
+    rewrite classes_app, state_after_app_local, E1, F1. repeat split; try apply F2.
+    apply Forall_app. split; assumption.
+Qed.
+
+Definition valid_item (sy : syntax) (i : item) : Prop :=
+  match i with
+  | Simple p => valid_simple sy p
+  | IgnoreNext dl body => ign_next_line sy dl (N.of_nat (length (render_simples body))) /\ valid_simples sy body
+  | IgnoreBlock ds body de => ign_start_line sy ds /\ valid_simples sy body /\ ign_end_line sy de
+  end.
+
+Theorem item_ok : forall sy st i, wf_syntax sy = true -> idle st -> valid_item sy i ->
+  classes sy (render_pitem i) st = truth_pitem i /\ idle (state_after sy (render_pitem i) st).
+Proof.
+  intros sy st i Hwf Hi Hv. destruct i as [p|dl body|ds body de]; cbn [render_pitem truth_pitem valid_item] in *.
+  - destruct (simple_ok sy st p Hwf Hi Hv) as (E1 & E2 & _). split; assumption.
+  - destruct Hv as [Hdl Hb]. destruct (simples_ok sy body st Hwf Hi Hb) as (_ & F2 & F3).
+    destruct (ignore_next_exact sy st dl (render_simples body) [] Hwf Hi Hdl F3 F2) as [E1 E2].
+    rewrite app_nil_r in E1. change (classes sy [] st0) with (@nil class) in E1. rewrite app_nil_r in E1.
+    rewrite E1, E2. split; [reflexivity|]. repeat split.
+  - destruct Hv as (Hds & Hb & Hde). destruct (simples_ok sy body st Hwf Hi Hb) as (_ & F2 & F3).
+    destruct (ignore_block_exact sy st ds (render_simples body) de [] Hwf Hi Hds F3 Hde F2) as [E1 E2].
+    change (classes sy [] st0) with (@nil class) in E1. rewrite E1, E2. split; [reflexivity|]. repeat split.
+Qed.
+
+Theorem program_ok : forall sy is st, wf_syntax sy = true -> idle st -> Forall (valid_item sy) is ->
+  classes sy (render_program is) st = truth_program is /\ idle (state_after sy (render_program is) st).
+Proof.
+  intros sy is; induction is as [|i is IH]; intros st Hwf Hi Hv.
+  - cbn. split; [reflexivity|exact Hi].
+  - inversion Hv as [|? ? Hp Hps]; subst.
+    cbn [render_program truth_program flat_map]. fold (render_program is). fold (truth_program is).
+    destruct (item_ok sy st i Hwf Hi Hp) as (E1 & E2).
+    destruct (IH _ Hwf E2 Hps) as (F1 & F2).
+    rewrite classes_app, state_after_app_local, E1, F1. split; [reflexivity|exact F2].
+Qed.
+
+(* counts: the tally of the truth, provided no line is an ignore-file directive *)
+Theorem program_counts : forall sy is, wf_syntax sy = true -> Forall (valid_item sy) is ->
+  Forall (fun l => has_ignore_file sy l = false) (render_program is) ->
+  count_lines sy (render_program is) stats0 st0 = Some (tally (truth_program is) stats0).
+Proof.
+  intros sy is Hwf Hv Hno. rewrite count_lines_tally by exact Hno.
+  destruct (program_ok sy is st0 Hwf (conj eq_refl (conj eq_refl eq_refl)) Hv) as [E _]. now rewrite E.
+Qed.
+
+(* ignore-file: a whole-line comment carrying the directive within the first ten lines ignores the file *)
+Theorem ignore_file_window : forall sy ls1 l ls2 s st,
+  has_ignore_file sy l = true -> total s + N.of_nat (length ls1) < 10 ->
+  count_lines sy (ls1 ++ l :: ls2) s st = None.
+Proof.
+  intros sy ls1; induction ls1 as [|x ls1 IH]; intros l ls2 s st Hl Hlt; cbn [app count_lines].
+  - assert (total s <? 10 = true) as -> by (apply N.ltb_lt; cbn in Hlt; lia). now rewrite Hl.
+  - destruct ((total s <? 10) && has_ignore_file sy x); [reflexivity|].
+    destruct (classify_line sy st x) as [c st']. apply IH; [exact Hl|]. rewrite bump_total. cbn [length] in Hlt. lia.
+Qed.
+
+(* ... and outside that window, or on a line that is not a whole-line comment, it has no effect *)
+Theorem ignore_file_needs_comment : forall sy l,
+  is_single_line_comment sy (trim l) = false -> has_ignore_file sy l = false.
+Proof. intros sy l H. unfold has_ignore_file. rewrite H. apply andb_false_r. Qed.
